@@ -274,6 +274,11 @@ func ReadGenBank(r io.Reader) (Genbank, error) {
 		lines = append(lines, line)
 	}
 
+	// a read error is not the end of the file
+	if err := s.Err(); err != nil {
+		return gb, err
+	}
+
 	switch {
 	case header == "FEATURES":
 		field = genbankField{header: header, lines: lines}
